@@ -297,18 +297,25 @@ class Report:
       print('KNOWN-FINDING: property=%s %s [%s; %d hits this run]' % (self.pid, what, fid, n))
     rc = 0
     seen = set()
+    shown = 0
     for what, obj, nofail in self.violations:
+      if shown >= 5:
+        break
       key = hashlib.sha1((what + json.dumps(obj, sort_keys=True, default=str)).encode()).hexdigest()[:10]
-      if what in seen:
+      norm = re.sub(r'[0-9]+', '#', what)[:120]
+      if norm in seen:
         continue
-      seen.add(what)
+      seen.add(norm)
       path = os.path.join(REPLAY, '%s-%s.json' % (self.pid, key))
       with open(path, 'w') as f:
         json.dump({'property': self.pid, 'what': what, 'seed': self.seed, 'tier': self.tier, 'replay': obj}, f,
                   indent=1, default=str)
       print('VIOLATION property=%s replay=%s%s' % (self.pid, path, ' no-failing-input-found' if nofail else ''))
       print('  ' + what[:500])
+      shown += 1
       rc = 1
+    if len(self.violations) > shown and rc:
+      print('  (%d further violation records suppressed)' % (len(self.violations) - shown))
     print('%s %s: %d evaluations, %d distinct non-trivial, %d theorems, %d violations, %.1fs' % (
         self.pid, self.tier, self.evaluations, len(self.nontrivial),
         self.proof['discharged'] if self.proof else 0, len(self.violations), time.time() - self.t0))
